@@ -335,6 +335,12 @@ def same_shape(actual, expected_src: str, what: str, masks) -> None:
     da = [ast.dump(ast.fix_missing_locations(s)) for s in actual]
     de = [ast.dump(s) for s in expected]
     if da != de:
+        if len(actual) == 1 and len(expected) == 1 and isinstance(actual[0], (ast.FunctionDef, ast.For)) \
+                and type(actual[0]) is type(expected[0]):
+            # descend: report the first differing statement of the body
+            actual, expected = actual[0].body, expected[0].body
+            da = [ast.dump(ast.fix_missing_locations(x)) for x in actual]
+            de = [ast.dump(x) for x in expected]
         for i, (x, y) in enumerate(zip(da, de)):
             if x != y:
                 raise P.Untranslatable(f"{what}: statement {i + 1} differs from the modelled shape: "
